@@ -28,12 +28,21 @@ def run_binary(case):
         class R(cf._Ref):
             tmp_dir = os.path.join(root, 'tmp')
         R.regenerate = {}
+        saved_env = os.environ.get('TDDA_FAIL_DIR')
+        if len(case['actual']) % 2 == 0:
+            os.makedirs(os.path.join(root, 'envfail'), exist_ok=True)
+            os.environ['TDDA_FAIL_DIR'] = os.path.join(root, 'envfail')
         r = R(lambda ok, msg: res.update(passed=bool(ok), message=msg))
         exc = None
         try:
             r.assertBinaryFileCorrect(act, ref)
         except Exception as e:  # noqa
             exc = e
+        finally:
+            if saved_env is None:
+                os.environ.pop('TDDA_FAIL_DIR', None)
+            else:
+                os.environ['TDDA_FAIL_DIR'] = saved_env
         return dict(res, exc=exc, before=before, after=cf.snapshot(root), root=root, refpath=ref, actpath=act)
     finally:
         shutil.rmtree(root, ignore_errors=True)
